@@ -69,10 +69,10 @@ theorem call_user {fl : Bool} {tmpl : Term} {max : Nat} {prog : List Term} (hpro
   | some pr =>
     have harr := harr1 pr hl
     have hcl := hsome pr hl
-    let its : List (Term × Option SLD.Alt) :=
+    let its : List Item :=
       (prog.filter (fun c => decide (headKey c = (functorName g, (argList g).length)))).map
-        (fun c => (c, some (SLD.Alt.clause (img σ1 π g) (ruleOf c))))
-    have hp : p = ({ id := m.user.nextId, delayed := its.map (fun it => Thunk.clause (clauseOf it.1) (argList g) K' env1 m.user.nextId) } : Pr) := by
+        (fun c => (clauseOf c, c, some (SLD.Alt.clause (img σ1 π g) (ruleOf c))))
+    have hp : p = ({ id := m.user.nextId, delayed := its.map (fun it => Thunk.clause it.1 (argList g) K' env1 m.user.nextId) } : Pr) := by
       have : p = (clausesCall pr.clauses (argList g) K' env1 m).1 := by rw [harr]
       rw [this]
       simp [its, clausesCall, freshId, hcl, List.map_map, Function.comp_def]
@@ -84,8 +84,8 @@ theorem call_user {fl : Bool} {tmpl : Term} {max : Nat} {prog : List Term} (hpro
       rw [hnone.2 he] at hl
       cases hl
     have hs' : SLD.solveAlts false (prog.flatMap SLD.splitClause ++ SLD.library) n' d nv
-        (its.filterMap (·.2)) R' q (max - m.user.answers.length) = some r := by
-      have hfm : its.filterMap (·.2) = (prog.filter (fun c => decide (headKey c = (functorName g, (argList g).length)))).map
+        (its.filterMap (·.2.2)) R' q (max - m.user.answers.length) = some r := by
+      have hfm : its.filterMap (·.2.2) = (prog.filter (fun c => decide (headKey c = (functorName g, (argList g).length)))).map
           (fun c => SLD.Alt.clause (img σ1 π g) (ruleOf c)) := by
         simp [its, List.filterMap_map, Function.comp_def]
       rw [hfm]
@@ -100,7 +100,7 @@ theorem call_user {fl : Bool} {tmpl : Term} {max : Nat} {prog : List Term} (hpro
     intro it hit
     simp only [its, List.mem_map, List.mem_filter, decide_eq_true_eq] at hit
     obtain ⟨c, ⟨hc1, hc2⟩, rfl⟩ := hit
-    exact .prog (hprog c hc1) hc2
+    exact .prog (clauseOf_spec c (clauseC_of_S (hprog c hc1))).2 hc2
 
 /-- a call of a control construct that bootstrap.pl defines by clauses -/
 theorem call_boot {fl : Bool} {tmpl : Term} {max : Nat} {prog : List Term} (hprog : ∀ c ∈ prog, clauseS fl c = true)
@@ -110,21 +110,21 @@ theorem call_boot {fl : Bool} {tmpl : Term} {max : Nat} {prog : List Term} (hpro
     {q : Term} (hq : q = img σ1 π tmpl)
     {g : Term} (hgD : InD D g) (hshape : Shape g)
     (hu : userPred (functorName g) (argList g).length = false)
-    {its : List (Term × Option SLD.Alt)}
+    {its : List Item}
     (hboot : ∃ pr, lookupProc bootState (functorName g) (argList g).length = some pr ∧
-      pr.clauses = its.map (fun it => clauseOf it.1))
+      pr.clauses = its.map (fun it => it.1))
     {m : MS} (hN : N ≤ m.user.nextVar) (hst : StOK prog m) {p : Pr} {m1 : MS}
     (harr1 : ∀ pr, lookupProc m.user (functorName g) (argList g).length = some pr →
       clausesCall pr.clauses (argList g) K' env1 m = (p, m1))
     {n d : Nat} {r : SLD.Res} (hrel : AltsRel fl σ1 π D nv d g its)
-    (hs : SLD.solveAlts false (progS prog) n d nv (its.filterMap (·.2)) R' q
+    (hs : SLD.solveAlts false (progS prog) n d nv (its.filterMap (·.2.2)) R' q
       (max - m.user.answers.length) = some r) :
     PSpecW fl mo tmpl max prog lv d p m1 m.user.answers r ∧ StOK prog m1 ∧ m.user.nextVar ≤ m1.user.nextVar := by
   obtain ⟨pr, hpr, hcl⟩ := hboot
   have hl : lookupProc m.user (functorName g) (argList g).length = some pr := by
     rw [lookupProc_stOK hst, lookup_other prog hprog _ _ hu, hpr]
   have harr := harr1 pr hl
-  have hp : p = ({ id := m.user.nextId, delayed := its.map (fun it => Thunk.clause (clauseOf it.1) (argList g) K' env1 m.user.nextId) } : Pr) := by
+  have hp : p = ({ id := m.user.nextId, delayed := its.map (fun it => Thunk.clause it.1 (argList g) K' env1 m.user.nextId) } : Pr) := by
     have : p = (clausesCall pr.clauses (argList g) K' env1 m).1 := by rw [harr]
     rw [this]
     simp [clausesCall, freshId, hcl, List.map_map, Function.comp_def]
@@ -141,7 +141,7 @@ theorem call_item {fl : Bool} {tmpl : Term} {N : Nat} {env : Env} {σ : Subst} {
     {nv d : Nat} {g' : Term} (hW : SimW tmpl N env σ π D nv) (hb : bodyS fl g' = true) (hw : wfT g' = true)
     (hgv : ∀ v, g'.hasVar v = true → RV σ D v) :
     SimW tmpl N env σ π (fun v => D v ∨ RV σ D v) nv ∧ InD (fun v => D v ∨ RV σ D v) (qHead g') ∧
-    AltRel fl σ π (fun v => D v ∨ RV σ D v) nv d (qHead g') (qClause g')
+    AltRel fl σ π (fun v => D v ∨ RV σ D v) nv d (qHead g') (clauseOf (qClause g')) (qClause g')
       (some (.frames (SLD.bodyFrames false (g'.rename π) d))) := by
   obtain ⟨hW2, hrv2⟩ := simW_addRV hW
   have hσg : ∀ v, g'.hasVar v = true → σ v = .var v := by
@@ -158,12 +158,13 @@ theorem call_item {fl : Bool} {tmpl : Term} {N : Nat} {env : Env} {σ : Subst} {
     · exact (qHead_hasVar g' x).1 hx
     · exact hx
   refine ⟨hW2, fun v hv' => Or.inr (hgv v ((qHead_hasVar g' v).1 hv')), ?_⟩
-  have hcast : ∀ Fs : List SLD.Frame, AltRel fl σ π (fun v => D v ∨ RV σ D v) nv d (qHead g') (qClause g')
+  have hcast : ∀ Fs : List SLD.Frame, AltRel fl σ π (fun v => D v ∨ RV σ D v) nv d (qHead g') (clauseOf (qClause g')) (qClause g')
       (some (.frames (Fs ++ ([] : List Nat).map skipF))) →
-      AltRel fl σ π (fun v => D v ∨ RV σ D v) nv d (qHead g') (qClause g') (some (.frames Fs)) := by
+      AltRel fl σ π (fun v => D v ∨ RV σ D v) nv d (qHead g') (clauseOf (qClause g')) (qClause g') (some (.frames Fs)) := by
     intro Fs h; simpa using h
   apply hcast
-  refine .frames (fun x => π x + nv) (2 * nv) (tauC g' π nv) [] (clauseC_of_S (clauseS_qClause hb hw)) rfl (by omega)
+  refine .frames (fun x => π x + nv) (2 * nv) (tauC g' π nv) []
+    (clauseOf_spec (qClause g') (clauseC_of_S (clauseS_qClause hb hw))).2 rfl (by omega)
     (fun x y hx hy hxy => hW.inj x y (hgv x (hcv x hx)) (hgv y (hcv y hy))
       (by have : π x + nv = π y + nv := hxy
           omega))
@@ -334,9 +335,9 @@ theorem cont_run {fl : Bool} (tmpl : Term) (max : Nat) (prog : List Term) (hprog
             .app ";" (.cons (.app "->" (.cons (img σ1 π c) (.cons (img σ1 π t) .nil))) (.cons (img σ1 π e) .nil)) := rfl
         rw [hig, solve_ite] at hs
         let θ0 : Subst := fun x => if x = 0 then img σ1 π c else if x = 1 then img σ1 π t else img σ1 π e
-        refine call_boot (its := [(ite1, some (.frames [.goal (SLD.call1 (img σ1 π c)) d, .goal (.atom "!") d,
+        refine call_boot (its := [(clauseOf ite1, ite1, some (.frames [.goal (SLD.call1 (img σ1 π c)) d, .goal (.atom "!") d,
               .goal (SLD.call1 (img σ1 π t)) l])),
-            (ite2, some (.frames [.goal (SLD.call1 (img σ1 π e)) l])), (disj3, none)])
+            (clauseOf ite2, ite2, some (.frames [.goal (SLD.call1 (img σ1 π e)) l])), (clauseOf disj3, disj3, none)])
           hprog hW1 hcg' hgr1 hco' hq1 hgD (Or.inr ⟨_, _, rfl, by simp [Args.length]⟩) userPred_semi
           (by obtain ⟨p0, h1, h2⟩ := boot_semi; exact ⟨p0, h1, by simpa using h2⟩) hN hst ?_ ?_ hs
         · intro pr hpr
@@ -387,7 +388,7 @@ theorem cont_run {fl : Bool} (tmpl : Term) (max : Nat) (prog : List Term) (hprog
         | succ n'' =>
         rw [solve_once] at hs
         let θ0 : Subst := fun _ => img σ1 π x
-        refine call_boot (its := [(once1, some (.frames ([.goal (SLD.call1 (SLD.call1 (img σ1 π x))) d,
+        refine call_boot (its := [(clauseOf once1, once1, some (.frames ([.goal (SLD.call1 (SLD.call1 (img σ1 π x))) d,
               .goal (.atom "!") d] ++ [l].map skipF)))])
           hprog hW1 hcg' hgr1 hco' hq1 hgD (Or.inr ⟨_, _, rfl, by simp [Args.length]⟩) userPred_once
           (by obtain ⟨p0, h1, h2⟩ := boot_once; exact ⟨p0, h1, by simpa using h2⟩) hN hst ?_ ?_ hs
@@ -407,7 +408,7 @@ theorem cont_run {fl : Bool} (tmpl : Term) (max : Nat) (prog : List Term) (hprog
             .app "->" (.cons (img σ1 π c) (.cons (img σ1 π t) .nil)) := rfl
         rw [hig, solve_ifthen] at hs
         let θ0 : Subst := fun x => if x = 0 then img σ1 π c else img σ1 π t
-        refine call_boot (its := [(ifthen1, some (.frames [.goal (SLD.call1 (img σ1 π c)) d, .goal (.atom "!") d,
+        refine call_boot (its := [(clauseOf ifthen1, ifthen1, some (.frames [.goal (SLD.call1 (img σ1 π c)) d, .goal (.atom "!") d,
               .goal (SLD.call1 (img σ1 π t)) l]))])
           hprog hW1 hcg' hgr1 hco' hq1 hgD (Or.inr ⟨_, _, rfl, by simp [Args.length]⟩) userPred_arrow
           (by obtain ⟨p0, h1, h2⟩ := boot_arrow; exact ⟨p0, h1, by simpa using h2⟩) hN hst ?_ ?_ hs
@@ -480,7 +481,7 @@ theorem cont_run {fl : Bool} (tmpl : Term) (max : Nat) (prog : List Term) (hprog
         obtain ⟨hW2, hgD2, hitem⟩ := call_item (fl := fl) (d := d) hW1 hb hw hgv
         have hgr2 : GRel mo lv σ1 π (fun v => D v ∨ RV σ1 D v) G' R' :=
           hgr1.step_id (fun v hv' => Or.inl hv') (fun _ _ => rfl)
-        refine toW3 ⟨.alts (its := [(qClause g', some (.frames (SLD.bodyFrames false (g'.rename π) d)))])
+        refine toW3 ⟨.alts (its := [(clauseOf (qClause g'), qClause g', some (.frames (SLD.bodyFrames false (g'.rename π) d)))])
           (g := qHead g') rfl (Nat.pos_iff_ne_zero.1 hst.2.1) (qHead_shape g')
           ⟨N, σ1, π, _, G', hN, hW2, hcg', hgr2, hco', hq1, hgD2, .cons hitem .nil⟩
           (by simpa [SLD.bodyFrames] using hs), hst.nextId, Nat.le_refl _⟩
